@@ -71,6 +71,12 @@ def make_value(desc, child_sum=0):
         from twosigma.memento.partition import InMemoryPartition
         p = InMemoryPartition({kk: make_value(x) for kk, x in v})
         return p
+    if k == "odpart":
+        from twosigma.memento.storage_filesystem import OnDiskPartition
+        p = OnDiskPartition()
+        for kk, x in v:
+            p[kk] = make_value(x)
+        return p
     raise ValueError(k)
 
 
